@@ -360,6 +360,22 @@ ROUND11 = {
     "C20": "(A10) the poll answers `no reload` only after reading the flag.",
 }
 
+ROUND12 = {
+    "C01": "P3 / P6 read a constant bound through a private checking helper (Ok / Err followed to the test of the verdict).",
+    "C02": "(S10) a UTF-8 skip from a helper that is exact on all 256 byte values is accepted; (S3e) a closure or private helper that can mark its parameter safe is never handed raw text of a value outside an is_safe() test of that value.",
+    "C03": "(L2) loop counters as symbolic expressions of index0; (L3) the else block of a loop is decided by what the iterator yielded.",
+    "C04": "(K13) as_const() only ever feeds a LoadConst; (K14) both evaluators insert the pairs of a map literal in source order.",
+    "C05": "B1 neutrality is asked of a compile_* function in the context of its only callers when it is a private piece of them.",
+    "C06": "I10 follows the ExportLocals handler into a private helper.",
+    "C07": "(V17) in every two-operand function returning Ordering an inner comparison keeps the orientation of the operands or its verdict is reversed.",
+    "C09": "(S7b) an optional bound is not clamped into range.",
+    "C10": "(E12) a search resumes one byte past a rejected candidate; E1 judges trimming helpers at their call sites and leaves the blank skips of tag recognisers alone.",
+    "C11": "R1 reads the limit test through a helper shared by check_depth and the charge function.",
+    "C13": "(G10) a function that takes an engine error and returns one never drops the incoming error (the out-of-fuel error stays in the chain).",
+    "C14": "(F14) the code that formats an error has no operation that panics on a short slice without a test of the length it relies on; F7 span balance in context.",
+    "C16": "(T13) the entries a composite deserializer shows the visitor are computed from the value, never from the names the target type declares.",
+}
+
 NOT_APPLICABLE = {
 }
 
@@ -379,6 +395,8 @@ def main():
                 text = text + " Round 9: " + ROUND9[p]
             if p in ROUND11:
                 text = text + " Rounds 10-11: " + ROUND11[p]
+            if p in ROUND12:
+                text = text + " Round 12: " + ROUND12[p]
             checks.append({
                 "property_id": p,
                 "quick_cmd": "./check %s --tier quick" % p,
